@@ -69,6 +69,15 @@ def run_check(prop, tier, seed, replay=None):
     def say(s):
         print(s, flush=True)
 
+    # stale replay files of earlier runs of this property
+    if os.path.isdir(lib.REPLAY) and not replay:
+        for f in os.listdir(lib.REPLAY):
+            if f.startswith(prop.id + '-'):
+                try:
+                    os.remove(os.path.join(lib.REPLAY, f))
+                except OSError:
+                    pass
+
     # ---- builds (always from /repo's working tree)
     try:
         exes = {p: lib.build_harness(p) for p in prop.profiles}
@@ -98,6 +107,7 @@ def run_check(prop, tier, seed, replay=None):
     if hasattr(prop, 'post_model'):
         mirror = prop.post_model(mirror, exes)
 
+    unsupported = 0
     corr_breaks = []   # (case, impl, mirror, spec, profile)
     prop_fails = []
     model_bugs = []
@@ -106,14 +116,24 @@ def run_check(prop, tier, seed, replay=None):
             a = impl[p][i]
             if spec[i] != '-' and a != spec[i]:
                 prop_fails.append((c, a, mirror[i], spec[i], p))
+            elif mirror[i] == 'UNSUP':
+                unsupported += 1          # behaviour outside the model: not comparable
             elif a != mirror[i]:
                 corr_breaks.append((c, a, mirror[i], spec[i], p))
     for i, c in enumerate(cases):
-        if spec[i] != '-' and mirror[i] != spec[i]:
+        if spec[i] != '-' and mirror[i] != 'UNSUP' and mirror[i] != spec[i]:
             model_bugs.append((c, '-', mirror[i], spec[i], '-'))
 
     # ---- direct predicates on the implementation
     d_evals, d_fails, d_samples, d_cov = prop.direct(exes, rng, tier) if not replay else (0, [], [], {})
+    # predicates over groups of cases of this run (e.g. the same program under several drive modes)
+    if hasattr(prop, 'group_check'):
+        for p in prop.profiles:
+            ge, gf, gs, gc = prop.group_check(cases, impl[p])
+            d_evals += ge
+            d_fails += gf
+            d_samples += gs
+            d_cov.update(gc)
 
     def replay_body(kind, item, note=''):
         c, a, m, s, p = item
@@ -214,6 +234,7 @@ def run_check(prop, tier, seed, replay=None):
         samples=samples + d_samples,
         programs=len(cases), disagreements_checked=len(corr_breaks) + len(prop_fails),
         correspondence_breaks=len(corr_breaks), property_failures=len(prop_fails),
+        outside_model=unsupported,
         known_findings_hit=sorted(set(known_lines)),
         distribution=dict(hist.most_common(60)), result_kinds=dict(kinds),
         profiles=list(prop.profiles), repo_head=lib.git_head(lib.REPO),
